@@ -22,7 +22,7 @@ for pid in sorted(props.PROPS):
 na = [dict(property_id=p, reason=r) for p, r in sorted(props.NOT_APPLICABLE.items())]
 m = dict(
     version=1,
-    setup_cmd="cd coq && coq_makefile -f _CoqProject -o Makefile && make -j16 && cd .. && ./ocaml/build.sh && python3 tools/buildlib.py",
+    setup_cmd="python3 tools/cxx2v.py && cd coq && coq_makefile -f _CoqProject -o Makefile && make -j16 && cd .. && ./ocaml/build.sh && python3 tools/buildlib.py",
     hooks=dict(guard="MEDDLY_VERIF_HOOKS",
                enable="tools/buildlib.py compiles the sources listed in /repo/src/Makefile.am with -DMEDDLY_VERIF_HOOKS into a cache outside /repo",
                baseline_off_cmd="make -C /repo -k check",
